@@ -188,3 +188,52 @@ PROPS['C19'] = {
                    'value-typed vectors, a value-keyed map and plain members (read in block.h) -- the whole-block copy is outside the solver bound (a 10 KB object: 745k symex steps, no verdict in 40 min).',
     'assumptions': TBL_ASSUME,
 }
+
+
+# ------------------------------------------------------------------------------------------ U7 writers
+WR_FUNCS = ['Writer<std::string>::Writer/open/write/close/rotate_output/~Writer', 'Writer<int>::Writer/open/write/close/rotate_output',
+            'GzipCborOutputWriter::write/open/close/write_gzip/rotate_output', 'CborOutputException']
+WR_ASSUME = ['std::ofstream model: user-space buffer in front of a file model; each write moves an arbitrary part of the pending bytes, flush/close move all; with faults enabled any open/write/flush/close may fail (bytes dropped, failbit/badbit set)',
+             '::rename / ::write / fstat / ::close: stubs with their documented contract (short counts, -1, EBADF for negative descriptors)',
+             'zlib deflateInit2_/deflate/deflateEnd: nondeterministic progress per the zlib manual (consumes 0..avail_in, produces 0..avail_out, progress when both non-zero, STREAM_END only on FINISH with everything delivered); compression itself is trusted',
+             'virtual calls on BaseCborOutputWriter* in the compressor obligations may only reach the ghost inner writer (a different target trips an assertion)',
+             'file names <= 3 bytes + suffix; <= 3 operations per history; chunks <= 4 bytes (the writers do not branch on sizes)']
+
+
+def wr_obl(name, entry, desc, unwind=14, vcall=(), tiers=('quick', 'thorough'), timeout=600):
+    return Obl(name, 'wr.cpp', 'noctor:' + entry, unwind=unwind, tiers=tiers, timeout=timeout, desc=desc, vcall=vcall,
+               bounds={'operations per history': '<= 3', 'name length': '<= 3 (+suffix)', 'chunk size': '<= 4 bytes (scratch obligation: any 32-bit size)'}, functions=WR_FUNCS)
+
+
+GZ_VCALL = ('BaseCborOutputWriter=GhostWriter|6WriterI[a-zA-Z0-9_]*D[012]Ev$',)
+PROPS['C15'] = {
+    'obligations': [wr_obl('wr_named_nofault', 'h_wr_named_nofault', 'named output, history of <= 3 write/rotate operations then destruction, symbolic ofstream buffering: data only to <name><suffix>.part; rename only after close with every handed byte in the file; nothing written after the rename'),
+                    wr_obl('wr_named_faults', 'h_wr_named_faults', 'same with I/O faults enabled: the .part / rename discipline is kept on every path')],
+    'explanation': 'Crash points are the prefixes of the event trace: the file-system model checks its invariant inside every stub call (the instants at which the process could die): a final name only ever '
+                   'appears through a rename whose source was closed and complete. Decided for Writer<std::string> (where .part / rename live); the ordering of the layers above it '
+                   '(break -> encoder flush -> compressor trailer -> close) is covered by enc_rotate (C06), gz_close (C14) and the destructor order fixed by member declaration order.',
+    'assumptions': WR_ASSUME,
+}
+PROPS['C16'] = {
+    'obligations': [wr_obl('wr_fd_write', 'h_wr_fd_write', 'Writer<int>::write: short count or -1 from ::write => CborOutputException, exactly then'),
+                    wr_obl('wr_named_faults16', 'h_wr_named_faults16', 'named output with faults: a rotate_output that closes an output which lost bytes must not return normally'),
+                    wr_obl('gz_close_fault', 'h_gz_close_fault', 'gzip output: failure of the inner writer while close() drains the compressor during rotate_output is reported', unwind=8, vcall=GZ_VCALL)],
+    'explanation': 'Fault sequences are the nondeterministic outcomes of the ::write / ofstream stubs. Descriptor outputs report; named and compressed outputs swallow failures (known findings).',
+    'assumptions': WR_ASSUME,
+}
+PROPS['C14'] = {
+    'obligations': [wr_obl('gz_write', 'h_gz_write', 'GzipCborOutputWriter::write with nondeterministic compressor progress: returns only when all input is consumed; every produced byte forwarded once', unwind=8, vcall=GZ_VCALL),
+                    wr_obl('gz_close', 'h_gz_close', 'rotate_output: FINISH until STREAM_END, trailer forwarded, deflateEnd, inner rotate, re-init', unwind=8, vcall=GZ_VCALL),
+                    wr_obl('gz_scratch', 'h_gz_scratch', 'write_gzip(n, .) for any 32-bit n: stack scratch bounded by a constant', unwind=8, vcall=GZ_VCALL)],
+    'explanation': 'What c-dns implements is the driver of zlib/liblzma; it is executed against a nondeterministic model of the compressor API. The xz driver is line-for-line the same code with lzma_* '
+                   '(read; not separately encoded). Real compression and MiB-scale data are outside the claim (the 24 MiB regression for the scratch-buffer fix was run natively once).',
+    'assumptions': WR_ASSUME,
+}
+PROPS['C13'] = {
+    'obligations': [wr_obl('wr_rotate_kind', 'h_wr_rotate_kind', 'named output rotated to a descriptor / string literal / name: a call that returns normally has closed+renamed the old output and opened the new one'),
+                    wr_obl('wr_rotate_kind_fd', 'h_wr_rotate_kind_fd', 'descriptor output rotated to a name / descriptor: a call that returns normally has closed the old descriptor')] +
+                   [o for o in enc_obls('C13') if o.name.startswith('enc_rotate')],
+    'explanation': 'Rotation at the writer and encoder layers: everything buffered reaches the old sink before the writer rotates (enc_rotate), and a rotation request that cannot be honoured is not silently ignored. '
+                   'The exporter-level part (break, counter reset, header on next block) is decided with the block/exporter harness.',
+    'assumptions': WR_ASSUME,
+}
